@@ -329,6 +329,11 @@ func witnessDesigns() []*dg.Design {
 	s.Methods = append(s.Methods, method("w_doc", "POST", "/wit/doc", &by, nil))
 	ha := dg.A(dg.Obj(dg.F("h_arr", dg.ArrayOf(dg.A(dg.Prim("Int")))).With(dg.Validation{MaxLen: ip(2)})))
 	s.Methods = append(s.Methods, method("w_harr", "GET", "/wit/harr", &ha, &dg.HTTPMap{Headers: []dg.MapEntry{{Attr: "h_arr", Wire: "X-H-Arr"}}}))
+	// two structurally equal payloads with different validations
+	sh1 := dg.A(dg.Obj(dg.F("shm", dg.MapOf(dg.A(dg.Prim("String")), dg.Attr{T: dg.Prim("Int"), V: &dg.Validation{Min: fp(1)}}))))
+	s.Methods = append(s.Methods, method("w_sh1", "POST", "/wit/sh1", &sh1, nil))
+	sh2 := dg.A(dg.Obj(dg.F("shm", dg.MapOf(dg.A(dg.Prim("String")), dg.A(dg.Prim("Int"))))))
+	s.Methods = append(s.Methods, method("w_sh2", "POST", "/wit/sh2", &sh2, nil))
 	// an unsigned 64-bit parameter
 	uq := dg.A(dg.Obj(dg.Req("u64", dg.Prim("UInt64"))))
 	s.Methods = append(s.Methods, method("w_u64", "GET", "/wit/u64", &uq, &dg.HTTPMap{Params: []dg.MapEntry{{Attr: "u64"}}}))
